@@ -147,8 +147,17 @@ package schedulerplugin
 //@ func (*FloatingIPPlugin).queryNodeSubnet trusted
 //@   modifies map(p.nodeSubnet)
 //@   ensures result1 == nil ==> result0 != nil
+// the pod's requested ranges as mathematical values (heap independent, so that postconditions can
+// speak about them in the entry state): reqN lists, list i has reqLen ranges [reqLo, reqHi]
+//@ uninterp reqN(pod *v1.Pod) mint
+//@ uninterp reqLen(pod *v1.Pod, i mint) mint
+//@ uninterp reqLo(pod *v1.Pod, i mint, r mint) mint
+//@ uninterp reqHi(pod *v1.Pod, i mint, r mint) mint
+//@ pure reqIs(pod *v1.Pod, rs [][]nets.IPRange) bool = len(rs) == reqN(pod) && (forall i int {rs[i]} {reqLen(pod, i)} :: 0 <= i && i < len(rs) ==> len(rs[i]) == reqLen(pod, i)) && (forall i int, r int {rs[i][r]} {reqLo(pod, i, r)} {reqHi(pod, i, r)} :: 0 <= i && i < len(rs) && 0 <= r && r < len(rs[i]) ==> nets.val(rs[i][r].First) == reqLo(pod, i, r) && nets.val(rs[i][r].Last) == reqHi(pod, i, r))
+//@ pure inReq(pod *v1.Pod, i int, k string) bool = k == ipv4str(ipv4val(k)) && exists r int :: 0 <= r && r < reqLen(pod, i) && reqLo(pod, i, r) <= ipv4val(k) && ipv4val(k) <= reqHi(pod, i, r)
 //@ func getPodCniArgs trusted
 //@   modifies fresh elemsof([]nets.IPRange), fresh elemsof(nets.IPRange), fresh elemsof(byte), fresh elemsof(constant.IPInfo), fresh nets.IPNet.*
+//@   ensures reqIs(pod, result0.RequestIPRange)
 //@   ensures forall i int, r int {result0.RequestIPRange[i][r]} :: 0 <= i && i < len(result0.RequestIPRange) && 0 <= r && r < len(result0.RequestIPRange[i]) ==> nets.wfRange(result0.RequestIPRange[i][r])
 //@ func [WIP] (*FloatingIPPlugin).allocateIP
 //@   requires pod != nil && key != "" && ipamOK(p) && envOK(p)
@@ -157,3 +166,51 @@ package schedulerplugin
 //@   ensures [WIP:bind-never-frees] forall k string :: old(StoreDom[k]) ==> StoreDom[k]
 //@   ensures [WIP:bind-uid-guard] result1 == nil && result0 != nil && len(result0.RequestIPRange) == 0 ==> forall i int :: 0 <= i && i < len(result0.Common.IPInfos) ==> (let s = ipstr(result0.Common.IPInfos[i].IP.IP) in old(StoreDom[s]) && old(s in crd(p).allocatedFIPs) ==> old(StoreUid[s]) == "" || old(StoreUid[s]) == pod.UID)
 //@   modifies all
+
+// ---- filter: which node subnets are offered to a pod (C06, C08) ----
+// appTypeOf: the workload-type prefix util.FormatKey derives for the pod ("dp_", "sts_", ...)
+//@ uninterp appTypeOf(pod *v1.Pod) string
+//@ pure poolsOK(p *FloatingIPPlugin) bool = poolIndexOK(crd(p))
+//@ func (*FloatingIPPlugin).getDpReplicas trusted noeffect
+//@   requires [C18] keyObj != nil
+//@ pure reservedFor(ci *floatingip.crdIpam, prefix string, s string) bool = (exists k string :: k in ci.allocatedFIPs && ci.allocatedFIPs[k].Key == prefix && hasSubnet(ci.allocatedFIPs[k].pool, s)) || (prefix == "" && exists k string :: k in ci.unallocatedFIPs && hasSubnet(ci.unallocatedFIPs[k].pool, s))
+//@ pure wfRangeLists(rs [][]nets.IPRange) bool = forall i int, r int {rs[i][r]} :: 0 <= i && i < len(rs) && 0 <= r && r < len(rs[i]) ==> nets.wfRange(rs[i][r])
+//@ func [C06,C08] (*FloatingIPPlugin).getAvailableSubnet
+//@   let ci = crd(p)
+//@   requires keyObj != nil && ipamOK(p) && poolsOK(p) && wfRangeLists(ipranges)
+//@   ensures ipamOK(p)
+//@   ensures result2 == nil ==> result0 != nil && fresh(result0)
+//@   ensures [C06:reserve-only-for-deployments] result2 == nil && result1 ==> keyObj.AppTypePrefix == "dp_" && len(ipranges) == 0
+//@   ensures [C06:available-subnet-serves-every-range] result2 == nil && !result1 ==> forall s string, i int {s in result0, ipranges[i]} :: s in result0 && 0 <= i && i < len(ipranges) ==> servable(ci, s, ipranges[i])
+//@   ensures [C06:available-subnet-has-free-ip] result2 == nil && !result1 && len(ipranges) == 0 ==> forall s string :: s in result0 ==> exists k string :: k in ci.unallocatedFIPs && hasSubnet(ci.unallocatedFIPs[k].pool, s)
+//@   ensures [C06:reserved-subnet-holds-pool-ip] result2 == nil && result1 ==> forall s string :: s in result0 ==> reservedFor(ci, poolPrefixStr(keyObj.PoolName, keyObj.AppTypePrefix, keyObj.Namespace, keyObj.AppName), s)
+//@   modifies fresh floatingip.FloatingIPInfo.*, fresh nets.IPNet.*, fresh mapsof(map[string]sets.Empty), fresh mapsof(map[int]sets.Empty), fresh elemsof(string), fresh elemsof(int), fresh elemsof(byte), fresh elemsof(*floatingip.FloatingIPInfo)
+//@   loop 0 invariant unusedSubnetSet != nil && fresh(unusedSubnetSet) && forall s string :: s in unusedSubnetSet ==> reservedFor(ci, poolPrefix, s)
+
+// allocateDuringFilter: re-keys / allocates inside the IPAM; pool topology and every set object
+// that existed before are untouched (modifies clause)
+//@ func [C06,C18] (*FloatingIPPlugin).allocateDuringFilter
+//@   requires keyObj != nil && ipamOK(p)
+//@   ensures ipamOK(p)
+//@   modifies map(crd(p).allocatedFIPs), map(crd(p).unallocatedFIPs), floatingip.FloatingIP.Key, floatingip.FloatingIP.Policy, floatingip.FloatingIP.UpdatedAt, floatingip.FloatingIP.NodeName, floatingip.FloatingIP.PodUid, fresh floatingip.FloatingIP.IP, fresh floatingip.FloatingIP.pool, fresh floatingip.FloatingIP.Labels, StoreDom, StoreKey, StorePolicy, StoreNode, StoreUid, faults, fresh elemsof(byte), fresh floatingip.FloatingIPInfo.*, fresh nets.IPNet.*, fresh net.IPNet.*, fresh mapsof(map[string]sets.Empty), fresh elemsof(string)
+
+// getSubnet: the node subnets offered to the pod.
+//  - every offered subnet can reach an IP the pod already holds, for each requested range list in
+//    which it holds one (and for its held IP when it requests no ranges);
+//  - for a pod that is not a deployment pod, every offered subnet can serve each requested range
+//    list in which the pod holds nothing from an IP that is free on entry.
+//@ pure ownedInReq(ci *floatingip.crdIpam, key string, pod *v1.Pod, i int) bool = exists k string :: k in ci.allocatedFIPs && ci.allocatedFIPs[k].Key == key && inReq(pod, i, k)
+//@ pure routableHeld(ci *floatingip.crdIpam, key string, pod *v1.Pod, i int, s string) bool = exists k string :: k in ci.allocatedFIPs && ci.allocatedFIPs[k].Key == key && inReq(pod, i, k) && hasSubnet(ci.allocatedFIPs[k].pool, s)
+//@ pure servableReq(ci *floatingip.crdIpam, pod *v1.Pod, i int, s string) bool = exists k string :: k in ci.unallocatedFIPs && inReq(pod, i, k) && hasSubnet(ci.unallocatedFIPs[k].pool, s)
+//@ func [C06,C08] (*FloatingIPPlugin).getSubnet
+//@   let ci = crd(p)
+//@   let K = keyOfPod(pod)
+//@   requires pod != nil && ipamOK(p) && poolsOK(p) && envOK(p) && listersOK(p) && p.podLockPool != p.dpLockPool && forall id string :: held[3*keylock(p.dpLockPool, id) + 1] == 0
+//@   ensures ipamOK(p)
+//@   ensures [C06,C08:held-ips-routable-from-offered-subnets] result1 == nil ==> forall s string, i int {s in result0, reqLen(pod, i)} :: s in result0 && 0 <= i && i < reqN(pod) && old(ownedInReq(ci, K, pod, i)) ==> old(routableHeld(ci, K, pod, i, s))
+//@   ensures [C06:held-ip-routable-without-ranges] result1 == nil && reqN(pod) == 0 && old(exists k string :: k in ci.allocatedFIPs && ci.allocatedFIPs[k].Key == K) ==> exists k string :: old(k in ci.allocatedFIPs && ci.allocatedFIPs[k].Key == K) && forall s string :: s in result0 ==> old(hasSubnet(ci.allocatedFIPs[k].pool, s))
+//@   modifies all
+//@   loop 0 invariant (!hasAllocated ==> len(allocatedSubnets) == 0) && (forall j int {ipInfos[j]} :: 0 <= j && j < len(ipInfos) && ipInfos[j] != nil ==> ipInfos[j].NodeSubnets != allocatedSubnets)
+//@   loop 0 invariant (!hasAllocated ==> forall j int {ipInfos[j]} :: 0 <= j && j < idx ==> ipInfos[j] == nil) && allocatedSubnets != nil && fresh(allocatedSubnets) && (unallocatedIPRange == nil || fresh(unallocatedIPRange)) && sameElems(unallocatedIPRange)
+//@   loop 0 invariant forall s string, j int {s in allocatedSubnets, ipInfos[j]} :: s in allocatedSubnets && 0 <= j && j < idx && ipInfos[j] != nil ==> s in ipInfos[j].NodeSubnets
+//@   loop 0 invariant forall u int {unallocatedIPRange[u]} :: 0 <= u && u < len(unallocatedIPRange) ==> exists j int :: 0 <= j && j < len(cniArgs.RequestIPRange) && unallocatedIPRange[u] == cniArgs.RequestIPRange[j]
